@@ -58,6 +58,14 @@ func Apply(blob []byte, ops []Op) ([]byte, error) {
 }
 
 func applyOp(skel *Skeleton, orig []byte, op Op, path *Path) error {
+	// op.Value is spliced into the body verbatim (or compared against it), so it has to be
+	// exactly one well-formed msgpack value: anything else would produce a body that a later
+	// read or patch can no longer parse.
+	if len(op.Value) > 0 {
+		if _, err := Parse(op.Value); err != nil {
+			return fmt.Errorf("%w: malformed value: %w", ErrInvalidOp, err)
+		}
+	}
 	switch op.Kind {
 	case OpSet:
 		return applySet(skel, op, path)
